@@ -179,6 +179,9 @@ def sc_selector(pkg, cls):
         steps = [("fit", fit), ("score", dict(X=Arr(X), y=y)), ("get_support", dict(indices=True, ordered=True))]
         if feature:
             steps.append(("transform", dict(X=Arr(X))))
+            steps.append(("inverse_transform", dict(X=Arr(X[:, :3 if variant < 2 else 2]))))
+        else:       # documented as unsupported for sample selection (ValueError); exercised all the same
+            steps += [("transform", dict(X=Arr(X))), ("inverse_transform", dict(X=Arr(X[:3])))]
         if fps:
             steps += [("get_distance", {}), ("get_select_distance", {})]
         if variant == 0:
@@ -206,7 +209,7 @@ def sc_voronoi():
         y = Arr(Y) if variant == 2 else None
         fit = dict(X=Arr(X), y=y)
         steps = [("fit", fit), ("score", dict(X=Arr(X), y=y)), ("get_distance", {}), ("get_select_distance", {}),
-                 ("get_support", dict(indices=True))]
+                 ("get_support", dict(indices=True)), ("transform", dict(X=Arr(X))), ("inverse_transform", dict(X=Arr(X[:4])))]
         alt = {"A_then_B": dict(X=Arr(XB), y=Arr(YB) if y is not None else None),
                "larger_then_smaller": dict(X=Arr(XS), y=Arr(YS) if y is not None else None),
                "with_y_then_without": (dict(X=Arr(X), y=Arr(Y)), dict(X=Arr(XB), y=None)),
@@ -602,8 +605,8 @@ def observe_call(rec, entry, case, call, args_named, hyper_named, est, layout):
         pafter = params_digest(est)
         for k in sorted(set(pbefore) | set(pafter)):
             if pbefore.get(k) != pafter.get(k) and not (k in hyper_named and snap(hyper_named[k]) != hbefore[k]):
-                rec.mutation(entry, "param", k, "get_params()[%r] changed: %s -> %s" % (
-                    k, str(pbefore.get(k, ("", "absent"))[1])[:40], str(pafter.get(k, ("", "absent"))[1])[:40]), case)
+                rec.mutation(entry, "param", k, "get_params()[%r] changed (was %s)" % (
+                    k, str(pbefore.get(k, ("", "absent"))[1])[:40]), case)
     return ok, res, err
 
 
